@@ -28,6 +28,9 @@ fn main() {
     run.parallel("workloads", t.pick(96, 3000), 0.97, |c, rng, st| case(c, rng, st, t));
     run.floor("crash_points_l1", 1000);
     run.floor("crash_points_l2", 10);
+    for b in ["Holes", "Kept", "Mixed"] {
+        run.floor(&format!("allocation_bursts:{b}"), 1);
+    }
     run.floor("unknown_outcome_faults_fired", 20);
     run.floor("convergence_checks", 50);
     run.floor("recovered_states_audited", 1000);
